@@ -297,8 +297,19 @@ func runC02(c *Ctx) {
 		}
 	}
 
+	// C02_STREAMS (debugging aid): restrict the generated run to the named streams, e.g. "z" or "ab"
+	on := func(l string) bool {
+		sel := os.Getenv("C02_STREAMS")
+		return sel == "" || strings.Contains(sel, l)
+	}
+	gate := func(l string, n int) int {
+		if on(l) {
+			return n
+		}
+		return 0
+	}
 	// (a) structure-aware mutations of valid encodings
-	na := 600 * scale
+	na := gate("a", 600*scale)
 	var prev []byte
 	for i := 0; i < na && !aborted; i++ {
 		st := c02GenStrategies[i%len(c02GenStrategies)]
@@ -323,7 +334,7 @@ func runC02(c *Ctx) {
 		prev = valid
 	}
 	// (b) random field soups
-	nb := 800 * scale
+	nb := gate("b", 800*scale)
 	for i := 0; i < nb && !aborted; i++ {
 		budget := 40 + r.Intn(200)
 		maybeGz(c02Soup(r, c02ProfSchema, 0, &budget), "b:soup")
@@ -343,7 +354,7 @@ func runC02(c *Ctx) {
 			return c02MutateText(r, doc), "text"
 		}
 	}
-	nc := 1500 * scale
+	nc := gate("c", 1500*scale)
 	for i := 0; i < nc && !aborted; i++ {
 		switch {
 		case len(seeds) > 0 && i%5 == 0:
@@ -398,6 +409,7 @@ func runC02(c *Ctx) {
 	if scale > 1 {
 		nh = 2 * c02HdrCombos
 	}
+	nh = gate("h", nh)
 	off := r.Intn(c02HdrCombos)
 	cliSeen := map[int]bool{}
 	for i := 0; i < nh && !aborted; i++ {
@@ -423,7 +435,7 @@ func runC02(c *Ctx) {
 	// (z) boundary sizes of every length-delimited element the encoder emits
 	sizes := map[string]map[int]bool{}
 	for _, bc := range c02BoundaryCases(r, scale > 1) {
-		if aborted {
+		if aborted || !on("z") {
 			break
 		}
 		raw, pn := c02WriteU(bc.p)
@@ -468,6 +480,7 @@ func runC02(c *Ctx) {
 	if scale > 1 {
 		nv = 12 * len(c02ValuePatterns)
 	}
+	nv = gate("v", nv)
 	for i := 0; i < nv && !aborted; i++ {
 		pat := c02ValuePatterns[i%len(c02ValuePatterns)]
 		p := c02ValueProfile(r, pat)
